@@ -8,12 +8,12 @@ from . import lexcommon as LC
 
 CRATES = None   # all
 
-def source_fb(K, self_loops=True):
+def source_fb(K, self_loops=True, section='VAR'):
     """K function blocks; block i declares one variable per potential edge i->j whose type name is the placeholder Tij"""
     out = []
     for i in range(K):
         vs = ''.join('  v%d_%d : T%d_%d;\n' % (i, j, i, j) for j in range(K))
-        out.append('FUNCTION_BLOCK fb%d\nVAR\n%sEND_VAR\nEND_FUNCTION_BLOCK\n' % (i, vs))
+        out.append('FUNCTION_BLOCK fb%d\n%s\n%sEND_VAR\nEND_FUNCTION_BLOCK\n' % (i, section, vs))
     return out
 
 def source_struct(K):
